@@ -204,6 +204,12 @@ fn one_instance(h: &H, idx: u64, inst: &Inst, rng: &mut Rng, npts: usize) {
             if any_nan(&ys0[k]) {
                 continue; // forward failed: reported above
             }
+            if inst.projection && xs[k][1].abs() == std::f64::consts::FRAC_PI_2 {
+                // the image of a pole, moved by up to a kilometre in the plane: at the apex of a
+                // cone that is a fraction of a millimetre on the ground, inside the 1e-10 rad
+                // within which the projections (like PROJ) take a latitude for the pole itself
+                continue;
+            }
             let mut r = residual(&inst.out_metric, &inst.ell, &again[k].0, &ys0[k]);
             if inst.name == "cart" && r.is_finite() {
                 // the stated accuracy is on the ground (plus height): split the cartesian
@@ -390,7 +396,13 @@ fn grid_round_trip(h: &H, idx: u64, rng: &mut Rng) {
         2 => ("g.datum", "gridshift grids=g.datum".to_string(), 0.0),
         _ => {
             let dt = rng.short_decimal(1.0, 30.0, 1);
-            ("g.deformation", format!("deformation grids=g.deformation dt={}", num(dt)), dt)
+            if rng.chance(0.5) {
+                ("g.deformation", format!("deformation grids=g.deformation dt={}", num(dt)), dt)
+            } else {
+                // the duration is the distance between the tuples' epoch (2015.5) and t_epoch
+                let t0 = 2015.5 - dt;
+                ("g.deformation", format!("deformation grids=g.deformation t_epoch={}", num(t0)), dt)
+            }
         }
     };
     ctx.grids.insert(gname.into(), Arc::new(grid));
